@@ -127,6 +127,16 @@ func (c *Ctx) dispatchPlan(pk *packages.Package, fd *ast.FuncDecl, mimeVar strin
 		}
 		return out
 	}
+	// nothing is decided before the literal lookup: no return is reachable from the entry without passing it (a cache of
+	// earlier results consulted first shadows a literal that is registered later)
+	for _, n := range g.Nodes {
+		if r := retStmt(n); r != nil && g.Entry != nil {
+			if p := g.Path(flow.Search{From: []*flow.Node{g.Entry}, Goal: func(y *flow.Node) bool { return y == n }, Avoid: func(y *flow.Node) bool { return y == litNode }}); p != nil {
+				problems = append(problems, "a result is returned before M.literal is consulted ("+c.pos(r)+"): "+pathStr(c, g, p))
+				break
+			}
+		}
+	}
 	var rangeN, matchCond *flow.Node
 	var entryPat string
 	for _, n := range g.Nodes {
